@@ -95,8 +95,12 @@ fn is_open(fd: RawFd) -> bool {
 }
 
 fn runtime(driver: DriverType) -> Runtime {
+    runtime_cap(driver, 8)
+}
+
+fn runtime_cap(driver: DriverType, cap: u32) -> Runtime {
     let mut pb = ProactorBuilder::new();
-    pb.driver_type(driver).capacity(8);
+    pb.driver_type(driver).capacity(cap);
     let mut rb = Runtime::builder();
     rb.with_proactor(pb);
     rb.build().expect("runtime")
@@ -414,7 +418,13 @@ fn run_handles(driver: DriverType, depth: usize, ch: &mut Chooser, log: &mut Vec
 /// descriptor-producing operations cancelled around their completion
 fn run_produced(driver: DriverType, kind: usize, ch: &mut Chooser, log: &mut Vec<String>) -> Result<String, (String, String)> {
     let before = baseline();
-    let rt = runtime(driver);
+    // kind 3: the incoming() stream on a ring of ONE entry with up to 5 connections queued before
+    // the stream is polled: the completion queue overflows and the kernel ends the multishot
+    // accept with a final successful completion (the stream has to re-arm and must not own the
+    // last descriptor twice)
+    let small_ring = kind == 3;
+    let kind = if kind == 3 { 2 } else { kind };
+    let rt = if small_ring { runtime_cap(driver, 1) } else { runtime(driver) };
     let dir = std::env::temp_dir();
     let path = dir.join(format!("e_c06-{}-{}", std::process::id(), kind));
     std::fs::write(&path, b"x").unwrap();
@@ -432,7 +442,10 @@ fn run_produced(driver: DriverType, kind: usize, ch: &mut Chooser, log: &mut Vec
     type Inc = Pin<Box<dyn futures_util::Stream<Item = std::io::Result<compio_net::UnixStream>>>>;
     let mut inc: Option<Inc> = None;
     let inc_listener: &'static compio_net::UnixListener = Box::leak(Box::new(listener.clone()));
-    let steps = if kind == 2 { 6 } else { 5 };
+    let steps = if small_ring { 7 } else if kind == 2 { 6 } else { 5 };
+    let max_peers = if small_ring { 5 } else { 3 };
+    // connections the stream delivered: the caller keeps them (they are "in use")
+    let mut kept: Vec<compio_net::UnixStream> = Vec::new();
     let mut submitted = false;
     let mut delivered: Vec<Box<dyn std::any::Any>> = Vec::new();
     for _ in 0..steps {
@@ -440,7 +453,7 @@ fn run_produced(driver: DriverType, kind: usize, ch: &mut Chooser, log: &mut Vec
         if !submitted {
             menu.push(1);
         }
-        if (kind == 0 && peers.len() < 2) || (kind == 2 && peers.len() < 3) {
+        if (kind == 0 && peers.len() < 2) || (kind == 2 && peers.len() < max_peers) {
             menu.push(2);
         }
         if fut.is_some() || inc.is_some() {
@@ -459,9 +472,9 @@ fn run_produced(driver: DriverType, kind: usize, ch: &mut Chooser, log: &mut Vec
                 let what = if op == 1 { "submit" } else { "poll" };
                 match rt.enter(|| st.as_mut().poll_next(&mut Context::from_waker(&noop))) {
                     Poll::Ready(Some(Ok(s))) => {
-                        // delivered to the caller, who drops (closes) it
+                        // delivered to the caller, who keeps it until the end
                         log.push(format!("{what}->delivered connection"));
-                        rt.enter(|| drop(s));
+                        kept.push(s);
                         inc = Some(st);
                     }
                     Poll::Ready(Some(Err(_))) => {
@@ -537,6 +550,26 @@ fn run_produced(driver: DriverType, kind: usize, ch: &mut Chooser, log: &mut Vec
         drop(inc.take());
     });
     harvest(&rt);
+    // every delivered connection is still open, is the caller's alone, and is a different one:
+    // peer i writes its own byte; the k-th delivered stream must read the k-th peer's byte
+    if !kept.is_empty() {
+        for (i, p) in peers.iter_mut().enumerate() {
+            let _ = p.write_all(&[0x30 + i as u8]);
+        }
+        for (k, sck) in kept.iter().enumerate() {
+            let mut b = [0u8; 4];
+            let n = unsafe { libc::recv(sck.as_raw_fd(), b.as_mut_ptr() as *mut libc::c_void, 4, libc::MSG_DONTWAIT) };
+            let errno = std::io::Error::last_os_error().raw_os_error().unwrap_or(0);
+            if n < 0 && errno == libc::EBADF {
+                return Err(("delivered-connection-closed-behind-the-caller:incoming".into(), format!("the {k}-th connection delivered by incoming() (fd {}) is not an open descriptor any more although the caller still holds its stream", sck.as_raw_fd())));
+            }
+            if n != 1 || b[0] != 0x30 + k as u8 {
+                return Err(("delivered-connection-is-not-its-own:incoming".into(), format!("the {k}-th delivered connection (fd {}) reads {:?} (n={n}, errno {errno}), expected the single byte {:#x} of the {k}-th peer: the descriptor was closed and its number re-used, or a connection was delivered twice / lost", sck.as_raw_fd(), &b[..n.max(0) as usize], 0x30 + k as u8)));
+            }
+        }
+    }
+    rt.enter(|| drop(kept.drain(..).collect::<Vec<_>>()));
+    harvest(&rt);
     drop(delivered.drain(..));
     // the stream is gone: give the leaked listener clone back
     rt.enter(|| drop(unsafe { Box::from_raw(inc_listener as *const compio_net::UnixListener as *mut compio_net::UnixListener) }));
@@ -552,6 +585,7 @@ fn run_produced(driver: DriverType, kind: usize, ch: &mut Chooser, log: &mut Vec
     close_leaked(&leaked);
     if !leaked.is_empty() {
         let what = ["accept", "open", "incoming"][kind];
+        let what = if small_ring { "incoming-small-ring" } else { what };
         return Err((format!("produced-descriptor-leaked:{what}"), format!("descriptors {leaked:?} still open after the {what} future, the listener and the runtime were dropped")));
     }
     Ok(format!("{}", log.len()))
@@ -565,10 +599,10 @@ fn shard(i: usize, n: usize, tier: Tier) {
     let mut task = 0usize;
     for driver in [DriverType::IoUring, DriverType::Poll] {
         let dname = format!("{driver:?}");
-        for family in 0..4usize {
+        for family in 0..5usize {
             // family 0 = handles, 1 = accept, 2 = open, 3 = incoming (stream of connections)
             // size of the first menu of each family (handles: stop/harvest/clone/drop/start-op/start-splice/close; accept: 4; open: 3; incoming: 4)
-            for first in 0..[if driver == DriverType::Poll { 7u32 } else { 6 }, 4, 3, 4][family] {
+            for first in 0..[if driver == DriverType::Poll { 7u32 } else { 6 }, 4, 3, 4, 4][family] {
                 task += 1;
                 if task % n != i {
                     continue;
@@ -599,7 +633,7 @@ fn shard(i: usize, n: usize, tier: Tier) {
                             stats.2.insert(format!("{dname}|{family}|{sig}"));
                         }
                         Err((key, detail)) => {
-                            let fam = ["handles", "produced", "produced", "produced"][family];
+                            let fam = ["handles", "produced", "produced", "produced", "produced"][family];
                             let _ = writeln!(out.lock(), "{}", json!({"v": {"key": format!("{dname}:{fam}:{key}"), "what": format!("driver {dname} program {log:?}: {detail}"), "replay": {"engine": "e_c06", "family": family, "driver": dname, "choices": ch.choices(), "program": log}}}));
                         }
                     }
@@ -662,7 +696,7 @@ fn main() {
         }
     }
     rep.sample(1, || json!({"family": "handles", "example": ["clone(0)", "start-op(1)", "close-create(0)", "close-poll(0)->Pending", "cancel-op(0)", "drop-handle(1)", "harvest", "close-poll(0)->Ready"]}));
-    rep.extra("bounds", json!({"program_depth": args.tier.pick(5, 6), "handles_max": 3, "pending_ops_max": 2, "closers_max": 2, "produced": ["accept", "File::open", "incoming (stream of connections, <= 3 peers, 6 steps)"], "two_descriptor_op": "splice(stream -> pipe)", "drivers": ["IoUring", "Poll"]}));
+    rep.extra("bounds", json!({"program_depth": args.tier.pick(5, 6), "handles_max": 3, "pending_ops_max": 2, "closers_max": 2, "produced": ["accept", "File::open", "incoming (stream of connections, <= 3 peers, 6 steps)", "incoming on a ring of 1 entry (<= 5 peers queued, 7 steps: completion-queue overflow ends the multishot accept)"], "two_descriptor_op": "splice(stream -> pipe)", "drivers": ["IoUring", "Poll"]}));
     rep.rule("every program up to program_depth over {clone, drop-handle, start-op (read), start-splice (an operation holding two descriptors), complete-op, cancel-op, close-create, close-poll (fresh waker), close-drop, harvest} on a UnixStream, and every order of {submit, peer-connects, cancel, harvest, poll} for accept / File::open / the incoming() stream (several connections queued, some taken, stream dropped), on both drivers, each from a fresh runtime in a single-threaded worker process; descriptor accounting through /proc/self/fd");
     rep.assume("single-threaded worker process: descriptor numbers are deterministic and /proc/self/fd is exact");
     rep.finish();
